@@ -3800,3 +3800,329 @@ fn replay_symlink() {
      bounds="every (link, target) pair of texts of 1..=2 chars over {'/','a','b','.'} from the tree {/, /a, /a/b, /b} with cwd '/' and '/a'")
 def c10_quick(ctx, prop):
     return run_symlinks(ctx, prop, 2)
+
+
+# ------------------------------------------------------------------------------------------------
+# C04: interleavings of lock-protected critical sections of small multi-threaded programs
+# ------------------------------------------------------------------------------------------------
+def lock_available(lk, tid, write):
+    if lk.writer is not None:
+        return False
+    if write and any(v for k, v in lk.readers.items()):
+        return False
+    return True
+
+
+class ConcRun(MemRun):
+    """Explores every interleaving of the threads' critical sections: a context switch is possible
+    before each lock acquisition (and at the start/end of each call).  All other steps of a thread only
+    touch thread-private data or data protected by the lock it holds."""
+
+    def explore_program(self, tree, cwd, programs, cons, on_final, max_sched=5000):
+        """programs: list (one per thread) of [(method, [values])]"""
+        ex = self.ex
+        memfs, inner = mk_memfs(tree, cwd)
+        nthreads = len(programs)
+        self.nsched = 0
+
+        def successors(st):
+            """st: no thread is executing; every thread is at a call boundary or waiting at a lock"""
+            out = []
+            ths = st.meta["threads"]
+            lk = self.lock_of(st)
+            runnable = []
+            for t in ths:
+                if t["waiting"] is not None:
+                    if lock_available(lk, t["tid"], t["waiting"]["write"]):
+                        runnable.append(t["tid"])
+                elif t["pc"] < len(programs[t["tid"]]):
+                    runnable.append(t["tid"])
+            if not runnable:
+                if any(t["waiting"] is not None for t in ths):
+                    on_final(st, "deadlock", None)
+                else:
+                    on_final(st, "done", None)
+                return []
+            for tid in runnable:
+                s2 = st.clone()
+                t = s2.meta["threads"][tid]
+                s2.meta["tid"] = tid
+                s2.meta["trace"] = s2.meta["trace"] + [tid]
+                s2.done = False
+                if t["waiting"] is not None:
+                    s2.frames = t["frames"]
+                    t["frames"] = None
+                    t["waiting"] = None
+                    s2.meta["granted"] = True
+                else:
+                    name, vals = programs[tid][t["pc"]]
+                    fr_state = ex.start(self.fn(name), [BoxRef(s2.meta["memfs"])] + list(vals))
+                    s2.frames = fr_state.frames
+                    s2.meta["granted"] = False
+                out.append(s2)
+            self.nsched += len(out)
+            if self.nsched > max_sched:
+                raise Unsupported("schedule budget exceeded (%d)" % max_sched)
+            return out
+
+        def on_yield(st, y):
+            # the running thread reached a lock acquisition: park it, then schedule
+            tid = st.meta["tid"]
+            t = st.meta["threads"][tid]
+            t["frames"] = st.frames
+            t["waiting"] = dict(write=y.info["write"])
+            st.frames = []
+            return successors(st)
+
+        def on_path(st):
+            # the running thread finished its current call
+            if st.meta.get("boot"):
+                st.meta["boot"] = False
+                return successors(st)
+            tid = st.meta["tid"]
+            t = st.meta["threads"][tid]
+            if st.panic or st.bound_hit:
+                on_final(st, "panic", "thread %d: %s" % (tid, st.panic or st.bound_hit))
+                return
+            t["results"] = t["results"] + [st.retval]
+            t["pc"] += 1
+            st.frames = []
+            st.retval = None
+            return successors(st)
+
+        ex.on_yield = on_yield
+        from .mirsym.engine import State
+        st0 = State()
+        st0.done = True
+        st0.pc = list(cons)
+        st0.meta = dict(sched=True, granted=False, boot=True, tid=0, trace=[], memfs=memfs, inner=inner,
+                        threads=[dict(tid=i, pc=0, frames=None, waiting=None, results=[]) for i in range(nthreads)])
+        try:
+            ex.explore(st0, on_path)
+        finally:
+            ex.on_yield = None
+
+
+def value_same(ex, st, a, b):
+    """B: two returned values are observably equal"""
+    from .mirsym.values import b_eq, bv_bin
+    if isinstance(a, Adt) and isinstance(b, Adt):
+        if a.ty != b.ty or a.variant != b.variant:
+            return B(False)
+        if a.ty == "Result" and a.variant == 1:
+            return B(True)  # error kinds are compared by variant of the Result only
+        if len(a.fields) != len(b.fields):
+            return B(False)
+        return b_and(*[value_same(ex, st, x, y) for x, y in zip(a.fields, b.fields)]) if a.fields else B(True)
+    if isinstance(a, (TP.PathBufT, M.SStr)) and isinstance(b, (TP.PathBufT, M.SStr)):
+        return text_eq(a.chars, b.chars)
+    if isinstance(a, B) and isinstance(b, B):
+        return b_eq(a, b)
+    if isinstance(a, BV) and isinstance(b, BV):
+        return bv_bin("Eq", a, b)
+    if isinstance(a, M.VecM) and isinstance(b, M.VecM):
+        if len(a.items) != len(b.items):
+            return B(False)
+        return b_and(*[value_same(ex, st, M._obj(ex, st, x), M._obj(ex, st, y)) for x, y in zip(a.items, b.items)]) if a.items else B(True)
+    return B(type(a) is type(b))
+
+
+def merges(seqs):
+    """all interleavings of the call sequences that respect each thread's program order: lists of (tid, idx)"""
+    if all(not s for s in seqs):
+        return [[]]
+    out = []
+    for t, s in enumerate(seqs):
+        if s:
+            rest = [x if i != t else x[1:] for i, x in enumerate(seqs)]
+            for m in merges(rest):
+                out.append([s[0]] + m)
+    return out
+
+
+CONC_DATA = {}
+
+
+def conc_programs(solver):
+    """2-thread programs over an op alphabet with concrete paths and symbolic 1-byte data"""
+    def data(name):
+        if name not in CONC_DATA:
+            c, cc = sym_text(solver, "cd_" + name, 1, ascii_only=True)
+            CONC_DATA[name] = (c, cc + ["(not (= %s #x00000000))" % c[0].v, "(not (= %s #x0000000a))" % c[0].v])
+        return CONC_DATA[name]
+    P = lambda s: BoxRef(M.SStr(T_(s)))
+    D = lambda n: BoxRef(M.SStr(data(n)[0]))
+    ops = {
+        "append_b_x": ("append_all", [P("/b"), D("x")]), "append_b_y": ("append_all", [P("/b"), D("y")]),
+        "write_b_x": ("write_all", [P("/b"), D("x")]), "write_n_y": ("write_all", [P("/n"), D("y")]),
+        "mkdir_de": ("mkdir_p", [P("/d/e")]), "mkdir_d": ("mkdir_p", [P("/d")]), "mkfile_n": ("mkfile", [P("/n")]),
+        "remove_b": ("remove", [P("/b")]), "remove_n": ("remove", [P("/n")]), "removeall_a": ("remove_all", [P("/a")]),
+        "read_b": ("read_all", [P("/b")]), "exists_n": ("exists", [P("/n")]), "isdir_d": ("is_dir", [P("/d")]),
+        "move_b_c": ("move_p", [P("/b"), P("/c")]), "setcwd_a": ("set_cwd", [P("/a")]), "mkfile_rel": ("mkfile", [P("r")]),
+        "symlink_l_b": ("symlink", [P("/l"), P("/b")]), "appendline_b": ("append_line", [P("/b"), D("y")]),
+    }
+    return ops, data
+
+
+def run_concurrent(ctx, prop, programs, tag="c04_conc"):
+    """programs: list of (name, [[opnames thread0], [opnames thread1], ...])"""
+    t0 = time.time()
+    run = ConcRun(ctx, tag)
+    ex, ob, solver = run.ex, run.ob, run.solver
+    CONC_DATA.clear()
+    ops, data = conc_programs(solver)
+    unit = dict(status="pass", failures=[])
+    nsched_total = 0
+    for pname, threads in programs:
+        progs = [[ops[o] for o in th] for th in threads]
+        cons = []
+        for k in ("x", "y"):
+            cons += data(k)[1]
+        # ---- sequential reference outcomes: every order of whole calls that respects program order
+        seq_out = []
+        for order in merges([[(t, i) for i in range(len(th))] for t, th in enumerate(progs)]):
+            calls = [progs[t][i] for t, i in order]
+            paths = []
+
+            def on_done(st, results, inner, i, paths=paths, order=order):
+                paths.append((list(st.pc), results, snapshot_store(ex, st, inner)))
+            MemRun.explore(run, TREE1, "/", calls, cons, on_done)
+            if len(paths) != 1 or any(r[0] != "ret" for r in paths[0][1]):
+                raise Unsupported("sequential reference run of %s is not a single normal path (%d)" % (pname, len(paths)))
+            per_thread = {}
+            for (t, i), r in zip(order, paths[0][1]):
+                per_thread.setdefault(t, []).append(r[1])
+            seq_out.append((order, per_thread, paths[0][2]))
+        # ---- every interleaving of the critical sections
+        groups = {k: data(k)[0] for k in ("x", "y")}
+        nfinal = [0]
+
+        def on_final(st, kind, detail, pname=pname, seq_out=seq_out, threads=threads):
+            nfinal[0] += 1
+            cf = lambda extra: text_model(ex, st, groups, extra)
+            trace = st.meta["trace"]
+            if kind in ("deadlock", "panic"):
+                ob.total += 1
+                ob.failures.append(dict(kind="panic", where="Memfs (concurrent)", cex=cf([]), program=pname, threads=threads, trace=trace,
+                                        desc="C04: %s in program %s under schedule %s%s" % (kind, pname, trace, ": " + detail if detail else "")))
+                return
+            lk = run.lock_of(st)
+            if lk is not None and not lk.free():
+                ob.total += 1
+                ob.failures.append(dict(kind="panic", where="Memfs (concurrent)", cex=cf([]), program=pname, threads=threads, trace=trace,
+                                        desc="C04: the filesystem lock is still held at quiescence in program %s" % pname))
+                return
+            after = snapshot_store(ex, st, st.meta["inner"])
+            for desc, f in store_wf(ex, st, after):
+                ob.prove(ex, st, desc + " (at quiescence, program %s)" % pname, f, cf) or ob.failures[-1].update(program=pname, threads=threads, trace=trace, where="Memfs (concurrent)")
+            alts = []
+            for order, per_thread, snap in seq_out:
+                conj = [store_same(ex, st, snap, after)]
+                for t in st.meta["threads"]:
+                    exp = per_thread.get(t["tid"], [])
+                    if len(exp) != len(t["results"]):
+                        conj.append(B(False))
+                    else:
+                        conj += [value_same(ex, st, a, b) for a, b in zip(exp, t["results"])]
+                alts.append(b_and(*conj))
+            ob.prove(ex, st, "C04: results and final state of program %s equal those of some sequential order of its calls" % pname,
+                     b_or(*alts), cf) or ob.failures[-1].update(program=pname, threads=threads, trace=trace, where="Memfs (concurrent)")
+
+        run.explore_program(TREE1, "/", progs, cons, on_final)
+        nsched_total += run.nsched
+        if len(ob.samples) < 4:
+            ob.samples.append(dict(program=pname, threads=threads, interleavings_explored=nfinal[0], sequential_orders=len(seq_out)))
+    seen = set()
+    for f in ob.failures:
+        if f["kind"] == "bound":
+            unit["status"], unit["why"] = "inconclusive", f["desc"]
+            continue
+        key = f.get("program")
+        if key in seen or len(seen) >= 4:
+            continue
+        seen.add(key)
+        src = conc_replay_src(f)
+        r = native_test(src, ctx.logdir, "%s_%d" % (tag, len(seen)))
+        reproduced = r["ran"] and r["failed"] > 0
+        rec = dict(kind=f["kind"], desc='"%s" schedule=%s' % (f["desc"], f.get("trace")), where=f.get("where", ""), reproduced=reproduced,
+                   replay_outcome=r["out"][-600:])
+        if reproduced:
+            rec["replay"] = save_replay(prop, tag, src, f["desc"], dict(failed=r["failed"]))
+        unit["failures"].append(rec)
+        unit["status"] = "violation"
+    u = finish(unit, ex, solver, ob, t0, dict(models_used="Memfs from MIR; RwLock with owner tracking; scheduler switching threads before every lock acquisition"))
+    u["notes"] = "%d scheduling decisions explored over %d programs" % (nsched_total, len(programs))
+    return u
+
+
+CONC_RUST_OPS = {
+    "append_b_x": 'v.append_all("/b", "X").map(|_| String::new())', "append_b_y": 'v.append_all("/b", "Y").map(|_| String::new())',
+    "write_b_x": 'v.write_all("/b", "X").map(|_| String::new())', "write_n_y": 'v.write_all("/n", "Y").map(|_| String::new())',
+    "mkdir_de": 'v.mkdir_p("/d/e").map(|_| String::new())', "mkdir_d": 'v.mkdir_p("/d").map(|_| String::new())',
+    "mkfile_n": 'v.mkfile("/n").map(|_| String::new())', "remove_b": 'v.remove("/b").map(|_| String::new())',
+    "remove_n": 'v.remove("/n").map(|_| String::new())', "removeall_a": 'v.remove_all("/a").map(|_| String::new())',
+    "read_b": 'v.read_all("/b")', "exists_n": 'Ok::<String, RvError>(v.exists("/n").to_string())',
+    "isdir_d": 'Ok::<String, RvError>(v.is_dir("/d").to_string())', "move_b_c": 'v.move_p("/b", "/c").map(|_| String::new())',
+    "setcwd_a": 'v.set_cwd("/a").map(|_| String::new())', "mkfile_rel": 'v.mkfile("r").map(|_| String::new())',
+    "symlink_l_b": 'v.symlink("/l", "/b").map(|_| String::new())', "appendline_b": 'v.append_line("/b", "Y").map(|_| String::new())',
+}
+
+
+def conc_replay_src(f):
+    """Stress replay: the program is run many times on real threads; every outcome must equal the outcome of
+    some sequential order (computed natively by running the orders sequentially)."""
+    threads = f["threads"]
+    orders = merges([[(t, i) for i in range(len(th))] for t, th in enumerate(threads)])
+    seq_code = ""
+    for k, order in enumerate(orders):
+        body = "".join('        res[%d].push(format!("{:?}", %s));\n' % (t, CONC_RUST_OPS[threads[t][i]]) for t, i in order)
+        seq_code += '    {\n        let v = fixture();\n        let mut res: Vec<Vec<String>> = vec![vec![]; %d];\n%s        allowed.push((res, dump(&v)));\n    }\n' % (len(threads), body)
+    spawn = ""
+    for t, th in enumerate(threads):
+        calls = "".join('            out.push(format!("{:?}", %s));\n' % CONC_RUST_OPS[o] for o in th)
+        spawn += '''        let v = fs.clone();
+        let b = barrier.clone();
+        handles.push(std::thread::spawn(move || {
+            let mut out: Vec<String> = vec![];
+            b.wait();
+%s            out
+        }));
+''' % calls
+    return MEM_REPLAY_PRELUDE + '''
+#[test]
+fn replay_concurrent() {
+    // %s
+    let mut allowed: Vec<(Vec<Vec<String>>, String)> = vec![];
+%s
+    for round in 0..20000 {
+        let fs = std::sync::Arc::new(fixture());
+        let barrier = std::sync::Arc::new(std::sync::Barrier::new(%d));
+        let mut handles = vec![];
+%s
+        let res: Vec<Vec<String>> = handles.into_iter().map(|h| h.join().expect("C04: a thread panicked")).collect();
+        let got = (res, dump(&fs));
+        assert!(allowed.contains(&got), "C04: round {}: outcome {:?} is not the outcome of any sequential order {:?}", round, got, allowed);
+        if let Err(e) = well_formed(&fs) { panic!("C04: tree not well formed at quiescence: {}", e); }
+    }
+}
+''' % (f["desc"].replace("\n", " "), seq_code, len(threads), spawn)
+
+
+CONC_QUICK = [
+    ("append||append", [["append_b_x"], ["append_b_y"]]),
+    ("write||append", [["write_b_x"], ["append_b_y"]]),
+    ("mkdir||mkdir", [["mkdir_de"], ["mkdir_d"]]),
+    ("mkfile||remove", [["mkfile_n"], ["remove_n"]]),
+    ("move||append", [["move_b_c"], ["append_b_y"]]),
+    ("remove_all||mkfile", [["removeall_a"], ["mkfile_n"]]),
+    ("set_cwd||mkfile_rel", [["setcwd_a"], ["mkfile_rel"]]),
+    ("read||write", [["read_b"], ["write_b_x"]]),
+    ("symlink||remove", [["symlink_l_b"], ["remove_b"]]),
+]
+
+
+@job("c04_interleavings", ["C04", "C12"], "quick",
+     functions=["Memfs::{append_all,write_all,mkdir_p,mkfile,remove,remove_all,move_p,set_cwd,read_all,symlink} (real MIR) under a thread scheduler"],
+     bounds="9 two-thread programs with one call per thread from the op alphabet; every interleaving of the lock-protected critical sections (context switch before each lock acquisition); data bytes symbolic")
+def c04_quick(ctx, prop):
+    return run_concurrent(ctx, prop, CONC_QUICK)
